@@ -325,6 +325,10 @@ def rule_cb(S, rule='R-CB'):
                     (t[0] == 'call' and (t[1] or '').endswith('key_tuple::operator==')):
                 d = dict(atoms)
                 d[t] = (idx == 0)
+                # the skip condition written as a short-circuit `if (a && b)`: both conjuncts established true on this path
+                if idx == 0 and t[0] == 'call' and any(k_[0] == 'bin' and k_[1] == '==' and k_[3] == ('enum', INCL) and v_
+                                                       for k_, v_ in d.items()):
+                    return ('X', fs2, frozenset(d.items()))
                 return (cb, fs2, frozenset(d.items()))
         return (cb, fs2, atoms)
 
@@ -335,19 +339,42 @@ def rule_cb(S, rule='R-CB'):
              'the border was reported to the callback (or the callback range is empty)' if e['ok'] else
              'the cursor leaves / stops in a border without having invoked the node-version callback for it', loc=e['loc'],
              path=e['path'])
-    # a true callback result aborts
-    ab = 0
-    for b, blk in f.blocks.items():
+    # a true callback result aborts: on the true edge of a test of the callback's result (directly, or of the local /
+    # helper result that holds it) the next return is WARN_ABORTED_BY_USER
+    cb_sites = {}
+
+    def astep(ctx, nd, st):
+        if nd['k'] == 'ReturnStmt':
+            if st is not None and st != 'no':
+                e = cb_sites[st]
+                if R.ret_const(f, nd) != Y + 'status::WARN_ABORTED_BY_USER':
+                    e['ok'] = False
+                    e['path'] = e['path'] or ctx.witness()
+            return None
+        return st
+
+    def abranch(ctx, blk, idx, st):
+        if blk.term and blk.term.get('k') == 'GotoStmt' and st not in (None, 'no'):
+            cb_sites[st]['ok'] = False
+            return 'no'
         if blk.term and 'cond' in blk.term and len(blk.succ) == 2:
-            c = f.strip(blk.term['cond'], casts=True)
+            c = f.strip(f.node(blk.term['cond']), casts=True)
+            truth = idx == 0
+            while c is not None and c['k'] == 'UnaryOperator' and c.get('op') == '!':
+                truth = not truth
+                c = f.strip(f.ch(c)[0], casts=True)
             if c is not None and is_cb_call(f, c, cbp):
-                tb = f.blocks[blk.succ[0]] if blk.succ[0] is not None else None
-                rets = [f.node(e) for e in (tb.elems if tb else []) if f.node(e)['k'] == 'ReturnStmt']
-                ok = bool(rets) and R.ret_const(f, rets[0]) == Y + 'status::WARN_ABORTED_BY_USER'
-                ab += 1
-                S.ob(rule, f.qname, 'callback result at ' + short_loc(c), ok,
-                     'true aborts with WARN_ABORTED_BY_USER' if ok else 'a true callback result does not abort the cursor',
-                     loc=short_loc(c))
+                site = short_loc(c)
+                cb_sites.setdefault(site, {'ok': True, 'path': None, 'loc': site})
+                return site if truth else 'no'
+        return st
+
+    Explorer(f, astep, abranch).run('no')
+    ab = len(cb_sites)
+    for site, e in sorted(cb_sites.items()):
+        S.ob(rule, f.qname, 'callback result at ' + site, e['ok'],
+             'true aborts with WARN_ABORTED_BY_USER' if e['ok'] else 'a true callback result does not abort the cursor',
+             loc=site, path=e['path'])
     S.require(rule, 'callback sites of iscan_findnext', ab, 4)
 
     # ---- iscan_findfirst --------------------------------------------------------------------------
@@ -665,6 +692,8 @@ def rule_layer(S):
             q = f.parent(n)
             if q is not None and is_call(q, cq=Y + 'iscan_context::stack'):
                 return div
+            if q is not None and q.get('inl'):
+                return div       # the argument of a spliced helper call: its use is the one inside the spliced body
             site = 'read of %s' % derived[n['id']]
             if site not in cache_sites:
                 cache_sites[site] = {'loc': short_loc(n), 'path': ctx.witness()}
